@@ -8,6 +8,10 @@ import Kust.Fns
 import Kust.Res
 import Kust.Fmt
 import Kust.Walk
+import Kust.GenMap
+import Kust.Sha256
+import Kust.Labels
+import Kust.Gen.FieldSpecs
 import Kust.Gen.Lists
 open Lean Kust
 
@@ -138,12 +142,71 @@ def runWalk (op : String) (a : Json) : Except String Json := do
       (Walk.merge3 serEq o Gen.associativeSequenceKeys (fuelOf [dest, orig, upd]) dest orig upd)
   | _ => throw s!"unknown walk op {op}"
 
+def dictOfJson (j : Json) : Except String GenMap.Dict := do
+  (← j.getArr?).toList.mapM fun kv => do
+    let a ← kv.getArr?
+    return (← a[0]!.getStr?, ← a[1]!.getStr?)
+
+def dictToJson (d : GenMap.Dict) : Json :=
+  Json.arr ((GenMap.sortDict d).map fun (k, v) => Json.arr #[Json.str k, Json.str v]).toArray
+
+def behaviorOf (s : String) : GenMap.Behavior :=
+  if s = "create" then .create else if s = "merge" then .merge else if s = "replace" then .replace else .unspecified
+
+def runGen (op : String) (a : Json) : Except String Json := do
+  match op with
+  | "hash" =>
+    let kind ← (a.getObjValD "kind").getStr?
+    let data ← dictOfJson (a.getObjValD "data")
+    let hasData := (a.getObjValD "hasData").getBool?.toOption.getD true
+    let typ := (a.getObjValD "type").getStr?.toOption.getD ""
+    let d := if hasData then some data else none
+    let input := if kind = "Secret" then GenMap.encodeSecret d typ else GenMap.encodeConfigMap d
+    return outToJson Json.str (GenMap.encodeDigits Gen.hashSubst (Sha256.sha256Hex input))
+  | "literals" =>
+    let ls ← strList (a.getObjValD "literals")
+    return outToJson dictToJson (GenMap.dataOfLiterals ls [])
+  | "absorb" =>
+    let ops ← (← (a.getObjValD "ops").getArr?).toList.mapM fun o => do
+      let b ← (o.getObjValD "behavior").getStr?
+      let d ← dictOfJson (o.getObjValD "data")
+      let nh := (o.getObjValD "needsHash").getBool?.toOption.getD true
+      return (behaviorOf b, ({ data := d, needsHash := nh } : GenMap.GObj))
+    return outToJson (fun (g : Option GenMap.GObj) => match g with
+      | some g => Json.mkObj [("data", dictToJson g.data), ("needsHash", Json.bool g.needsHash)]
+      | none => Json.null) (GenMap.absorbAll none ops)
+  | _ => throw s!"unknown gen op {op}"
+
+def runLabels (op : String) (a : Json) : Except String Json := do
+  match op with
+  | "build" =>
+    let g ← (a.getObjValD "group").getStr?
+    let v ← (a.getObjValD "version").getStr?
+    let k ← (a.getObjValD "kind").getStr?
+    let L ← dictOfJson (a.getObjValD "labels")
+    let incSel := (a.getObjValD "includeSelectors").getBool?.toOption.getD false
+    let incTmpl := (a.getObjValD "includeTemplates").getBool?.toOption.getD false
+    let common := (a.getObjValD "common").getBool?.toOption.getD false
+    let locs ← (← (a.getObjValD "locs").getArr?).toList.mapM fun l => do
+      let p ← (l.getObjValD "path").getStr?
+      let cur := l.getObjValD "cur"
+      let d ← (if cur.isNull then pure none else do return some (← dictOfJson cur))
+      return ((p, d) : Labels.Loc)
+    let specs := if common || incSel then Gen.commonLabelsSpecs
+      else (if incTmpl then Gen.templateLabelsSpecs else []) ++ [⟨"", "", "", "metadata/labels", true⟩]
+    let out := Labels.applyLabels specs g v k L locs
+    return Json.mkObj [("ok", Json.arr (out.map fun (p, d) => Json.mkObj [("path", Json.str p),
+      ("cur", match d with | some d => dictToJson d | none => Json.null)]).toArray)]
+  | _ => throw s!"unknown labels op {op}"
+
 def dispatch (comp : String) (args : Json) : Except String Json :=
   match comp.splitOn "." with
   | ["fns", op] => runFns op args
   | ["res", op] => runRes op args
   | ["fmt", op] => runFmt op args
   | ["walk", op] => runWalk op args
+  | ["gen", op] => runGen op args
+  | ["labels", op] => runLabels op args
   | _ => throw s!"unknown component {comp}"
 
 partial def loop (hin hout : IO.FS.Stream) : IO Unit := do
